@@ -1,0 +1,18 @@
+//go:build verif
+
+package lex
+
+// VerifState exposes the scalar lexer state to the verification harness.
+type VerifState struct {
+	Pos, Start, InputLen int
+	AtEOF                bool
+	CurrTyp              TokType
+}
+
+// VerifState returns the scalar lexer state without touching it.
+func (l *Lexer) VerifState() VerifState {
+	return VerifState{Pos: l.pos, Start: l.start, InputLen: len(l.input), AtEOF: l.atEOF, CurrTyp: l.currItem.Typ}
+}
+
+// VerifPos returns the byte offset at which the token started.
+func (i Token) VerifPos() int { return i.pos }
